@@ -201,6 +201,9 @@ M("c14-dereg-revert", "C14", "flexstack/facilities/local_dynamic_map/ldm_service
   "        for subscription in stale:\n            self.remove_subscription(subscription)\n", "", "revert: subscriptions survive deregistration")
 M("c14-last-shared", "C14", "flexstack/facilities/local_dynamic_map/ldm_service.py",
   "                return\n            self.last_checked_subscriptions_time[subscription] = current_time\n", "                return\n            for other in self.last_checked_subscriptions_time:\n                self.last_checked_subscriptions_time[other] = current_time\n", "a notification resets the interval of every subscription")
+M("c14-snapshot-revert", "C14", "flexstack/facilities/local_dynamic_map/ldm_service.py",
+  "            if subscription not in self.subscriptions:\n                return\n            last_checked = self.last_checked_subscriptions_time.get(subscription)", "            last_checked = self.last_checked_subscriptions_time.get(subscription)",
+  "revert: a subscription removed during an attendance pass is still notified by it")
 
 # ---------------------------------------------------------------- C09
 M("c09-no-sig", "C09", "flexstack/security/certificate.py",
